@@ -1690,6 +1690,10 @@ class Cell(Bucket):
 
             if app.blacklisted:
                 _LOGGER.info('App %s is blacklisted', app.name)
+                # Blacklisted apps are never placed. One that lost its server
+                # outside of the schedule (server removed or reloaded) still
+                # holds its identity.
+                app.release_identity()
                 continue
 
             if app.final_rank == _UNPLACED_RANK:
